@@ -369,6 +369,38 @@ def strip_nulls(c, d, ctx):
     return out, [t for _, _, t in dels]
 
 
+_RETURNED = {}
+
+
+def returned_defects():
+    """Which of the REPAIRED defects of the generic branches the library under test shows again, decided once per run by
+    the defect's signature behaviour on a fixed probe (not by the failing case): a failure is keyed by one of their
+    shapes only if that defect is observably back -- otherwise a document that merely contains such a site (an empty
+    array where a NoneField is an alternative, ...) would hide which OPEN finding the failure belongs to."""
+    if not _RETURNED:
+        from typedpy import deserialize_single_field, Tuple, Integer, NoneField, TimeString
+
+        def accepted(f, doc):
+            try:
+                deserialize_single_field(f, doc)
+                return True
+            except Exception:  # noqa
+                return False
+
+        def raises(f, doc, name):
+            try:
+                deserialize_single_field(f, doc)
+            except Exception as ex:  # noqa
+                return type(ex).__name__ == name
+            return False
+        _RETURNED.update({
+            "nonefield-container": accepted(NoneField(), []) or accepted(NoneField(), {}),
+            "typedfield-container": accepted(TimeString(), ["07:15:45"]) or accepted(TimeString(), []),
+            "tuple1-positional": accepted(Tuple[Integer], [1, "x"]) or raises(Tuple[Integer], [], "IndexError"),
+        })
+    return _RETURNED
+
+
 def attribute(case, ctx, v):
     """input-shape part of the key of an agreement failure (over-accepts / over-rejects / different-instance)
     when the failing document has one of the shapes below; None otherwise.  The shapes of F17b, of the wrapper
@@ -376,7 +408,8 @@ def attribute(case, ctx, v):
     (known_findings.json lists their keys).  The others are the shapes of REPAIRED defects (keep_undefined not
     passed below a Map; [] / {} read as None by a NoneField; a TypedField over str built from a JSON container; a
     one-item Tuple read positionally): their keys are listed nowhere, so a failure of that shape is a VIOLATION --
-    the key only says which defect has come back."""
+    the key only says which defect has come back, and the last three are used only when that defect is observably
+    back (returned_defects)."""
     c, doc = case["c"], case["doc"]
     # F17b: an explicit null for a declared field is treated as an absent key.  Attributed only if the same
     # document without those keys satisfies the property and the implementation treats both alike.
@@ -396,18 +429,19 @@ def attribute(case, ctx, v):
             MAP_KEEPS_UNDEFINED[0] = False
     top = {"t": "ref", "cls": c["name"]}
     all_sites = list(G6.sites(top, doc, ctx))
+    back = returned_defects()
     for _, g, x in all_sites:
         # (repaired, F26) the generic TypedField branch built NoneType() from [] / {} where a NoneField is expected
-        if g["t"] == "none" and (x == [] or x == {}) and type(x) in (list, dict):
+        if back["nonefield-container"] and g["t"] == "none" and (x == [] or x == {}) and type(x) in (list, dict):
             return "nonefield-accepts-empty-container"
         # same branch, TypedField over str: str(*list) / str(**dict)
-        if g["t"] == "ext" and g["k"] == "TimeString" and type(x) in (list, dict):
+        if back["typedfield-container"] and g["t"] == "ext" and g["k"] == "TimeString" and type(x) in (list, dict):
             return "typedfield-built-from-json-container"
     for _, g, x in all_sites:
         # (repaired, F9 / F20) behind a multi-field wrapper: a homogeneous Tuple[T] deserialized element 0 only -- the
         # empty array raised IndexError (caught by the wrapper: "does not match"), a longer one kept its tail as
         # it was
-        if g["t"] == "tuple" and len(g["items"]) == 1 and type(x) is list:
+        if back["tuple1-positional"] and g["t"] == "tuple" and len(g["items"]) == 1 and type(x) is list:
             if not x:
                 return "tuple-homogeneous:empty-under-wrapper"
             if len(x) >= 2:
